@@ -352,8 +352,23 @@ class Machine:
         hi = max(p.hi if isinstance(p, Term) else p for g, p in small)
         for g, p in reversed(small):
             pe = p.e if isinstance(p, Term) else z3.IntVal(p)
-            e = pe if e is None else z3.If(self.lits.guard_expr(g), pe, e)
-        t = Term(e, lo, hi)
+            if isinstance(p, Term) and g:
+                # specialise the branch under its own guard: sub-terms that test the same atoms collapse
+                # (ite(c, ite(c, x + w, x) - w, ...) -> ite(c, x, ...)), which keeps `+w ... -w` chains small
+                pe = z3.substitute(pe, *[(self.lits.atoms[a], z3.BoolVal(pol)) for a, pol in g])
+            if e is None:
+                e = pe
+            else:
+                if len(g) == 1:
+                    (a, pol), = tuple(g)
+                    e = z3.substitute(e, (self.lits.atoms[a], z3.BoolVal(not pol)))
+                e = z3.If(self.lits.guard_expr(g), pe, e)
+        e = z3.simplify(e)
+        if z3.is_int_value(e):
+            v = e.as_long()
+            t = v if v >= 0 else Term(e, v, v)
+        else:
+            t = Term(e, lo, hi)
         if not big:
             return t
         # guard of the group: negation of a single-literal big alternative if possible, else a defined atom
@@ -550,10 +565,10 @@ class Ops:
             raise Unsupported("i1 op %s" % op)
         if op in ("add", "fadd"):
             a, b = _t(x, w), _t(y, w)
-            return self.shrink(Term(a.e + b.e, a.lo + b.lo, a.hi + b.hi), w)
+            return self.shrink(self.addsub(a, b, 1), w)
         if op in ("sub", "fsub"):
             a, b = _t(x, w), _t(y, w)
-            return self.shrink(Term(a.e - b.e, a.lo - b.hi, a.hi - b.lo), w)
+            return self.shrink(self.addsub(a, b, -1), w)
         if op in ("mul", "fmul"):
             if isinstance(x, Term) and isinstance(y, Term):
                 raise Unsupported("symbolic * symbolic")
@@ -604,6 +619,75 @@ class Ops:
             self.stats["mods"] += 1
             return Term(t.e % y, 0, y - 1)
         raise Unsupported("binary %s on %r, %r" % (op, x, y))
+
+    def addsub(self, a, b, sign):
+        """a + sign*b.  When one operand is an if-then-else tree and the other a plain variable/constant, the
+        operation is pushed into the leaves and simplified there, so that `x + w ... - w` chains (incremental
+        cost updates) cancel syntactically and the interval stays tight - otherwise every later comparison
+        needs a solver query to exclude a wrap-around."""
+        ea, eb = a.e, b.e
+        lo, hi = (a.lo + b.lo, a.hi + b.hi) if sign > 0 else (a.lo - b.hi, a.hi - b.lo)
+        simple_b = z3.is_int_value(eb) or eb.decl().kind() == z3.Z3_OP_UNINTERPRETED
+        simple_a = z3.is_int_value(ea) or ea.decl().kind() == z3.Z3_OP_UNINTERPRETED
+        if simple_b and not simple_a and ea.decl().kind() in (z3.Z3_OP_ITE, z3.Z3_OP_ADD, z3.Z3_OP_SUB):
+            e, (l2, h2) = self._push(ea, eb, sign, False, {})
+            return Term(e, max(lo, l2), min(hi, h2)) if l2 is not None else Term(e, lo, hi)
+        if simple_a and not simple_b and sign > 0 and eb.decl().kind() in (z3.Z3_OP_ITE, z3.Z3_OP_ADD, z3.Z3_OP_SUB):
+            e, (l2, h2) = self._push(eb, ea, 1, False, {})
+            return Term(e, max(lo, l2), min(hi, h2)) if l2 is not None else Term(e, lo, hi)
+        return Term(ea + eb if sign > 0 else ea - eb, lo, hi)
+
+    def _push(self, e, k, sign, _unused, memo):
+        """(e + sign*k) with the addition pushed through if-then-else nodes; returns (expr, (lo, hi)) where the
+        interval is the hull over the leaves computed from the input ranges (None if not computable)."""
+        key = e.get_id()
+        hit = memo.get(key)
+        if hit is not None:
+            return hit
+        if e.decl().kind() == z3.Z3_OP_ITE and len(memo) < 400:
+            t, it1 = self._push(e.arg(1), k, sign, False, memo)
+            f, it2 = self._push(e.arg(2), k, sign, False, memo)
+            r = z3.If(e.arg(0), t, f)
+            iv = (min(it1[0], it2[0]), max(it1[1], it2[1])) if it1[0] is not None and it2[0] is not None else (None, None)
+        else:
+            r = z3.simplify(e + k if sign > 0 else e - k)
+            iv = self.linear_interval(r)
+        memo[key] = (r, iv)
+        return r, iv
+
+    def linear_interval(self, e):
+        """interval of a linear combination of input variables (None, None if e is not of that form)"""
+        try:
+            return self._lin(e)
+        except ValueError:
+            return (None, None)
+
+    def _lin(self, e):
+        if z3.is_int_value(e):
+            v = e.as_long()
+            return (v, v)
+        d = e.decl().kind()
+        if d == z3.Z3_OP_UNINTERPRETED:
+            x = self.inputs.get(e.decl().name())
+            if x is None:
+                raise ValueError
+            return (x[1], x[2])
+        if d == z3.Z3_OP_ADD:
+            lo = hi = 0
+            for c in e.children():
+                a, b = self._lin(c)
+                lo += a
+                hi += b
+            return (lo, hi)
+        if d == z3.Z3_OP_MUL and e.num_args() == 2 and z3.is_int_value(e.arg(0)):
+            c = e.arg(0).as_long()
+            a, b = self._lin(e.arg(1))
+            return tuple(sorted((a * c, b * c)))
+        if d == z3.Z3_OP_ITE:
+            a, b = self._lin(e.arg(1))
+            c, dd = self._lin(e.arg(2))
+            return (min(a, c), max(b, dd))
+        raise ValueError
 
     def shrink(self, t, w):
         """keep intervals from growing without bound through long +/- chains"""
@@ -691,6 +775,12 @@ class Ops:
                 return self.boolt(z3.Xor(a, b))
             raise Unsupported("ordered compare on i1")
         signed = pred >= 38
+        if pred in (32, 33):
+            # equality: any common representative will do - prefer the one that needs no wrap analysis
+            ta, tb = _t(x, w), _t(y, w)
+            half = 1 << (w - 1)
+            if not (ta.lo >= 0 and tb.lo >= 0 and ta.hi < (1 << w) and tb.hi < (1 << w)) and -half <= ta.lo and ta.hi < half and -half <= tb.lo and tb.hi < half:
+                signed = True
         a, b = self.fit(_t(x, w), w, signed), self.fit(_t(y, w), w, signed)
         if isinstance(x, int) and not signed:
             a = Term(z3.IntVal(x), x, x)
